@@ -70,7 +70,7 @@ static char		vh_case_desc [512] ;
 static FILE		*vh_out = NULL ;
 static long		vh_cases_run = 0 ;
 static int		vh_nsamples = 0 ;
-static int		vh_case_secs = 20 ;		/* wall watchdog per case */
+static int		vh_case_secs = 60 ;		/* wall watchdog per case */
 static long		vh_viol_count = 0 ;
 
 /*------------------------------------------------------------------ PRNG */
